@@ -2,3 +2,4 @@ import Verif.Properties.C08
 #print axioms C08.identity_on_normal_forms
 #print axioms C08.document_unchanged
 #print axioms C08.phases_idle
+#print axioms C08.identity_on_normal_forms_multi
